@@ -93,8 +93,11 @@ def gen_specs(ctx):
         getset = ctx.rng.random() < 0.75
         s = g.top("T", getset_dirs=getset, json_tags=True, generic=0.05, maxfields=4, maxdepth=2, selfembed=0.05, types_extra=newgen.EXTRA_TYPES_JSON, generic_embed=0.1)
         s["typedoc"] = ctx.rng.choice(TYPEDOCS) if getset and ctx.rng.random() < 0.35 else None
+        # without -getset on T the embedded shoot types are generated by an EARLIER run (with -getset -json): their accessors
+        # are promoted all the same ("split" cases)
+        split = (not getset) and ctx.rng.random() < 0.5
         for m in s["members"]:
-            if m["k"] == "e" and m.get("pkg") != "sub" and getset and ctx.rng.random() < 0.4 and not s["tparams"]:
+            if m["k"] == "e" and m.get("pkg") != "sub" and (getset or split) and ctx.rng.random() < 0.4 and not s["tparams"]:
                 m["shoot"] = True
                 for mm in m["decl"]["members"]:
                     if mm["k"] == "f" and not newgen.is_exported(mm["name"]) and mm.get("group") is None and ctx.rng.random() < 0.4:
@@ -139,11 +142,18 @@ def run(ctx, obl):
         # multi-type run (30%): companion types first (a generic one embedding a shoot type, with restrictions on fields named like T's)
         cdecls, cnames, cafter = newgen.companion(ctx.rng, s, cid, share_shoot=getset) if ctx.rng.random() < 0.3 else ([], [], [])
         args = ["new"] + (["-getset"] if getset else []) + ["-json", "-tagcase=" + tagcases[i], "-type=" + ",".join(cnames + shoots + cafter + [s["name"]])]
+        runs = [{"args": args}] * (2 if ctx.rng.random() < 0.12 else 1)
+        if shoots and not getset:
+            # split: first the embedded shoot types WITH -getset, then T with -json alone
+            a1 = ["new", "-getset", "-json", "-tagcase=" + tagcases[i], "-type=" + ",".join(shoots)]
+            args = ["new", "-json", "-tagcase=" + tagcases[i], "-type=" + ",".join(cnames + cafter + [s["name"]])]
+            runs = [{"args": a1}, {"args": args}]
+            res.hist("split_run", "getset-types-first")
         inst = newgen.instantiate(s)
         oracle = ('package cs\n\nimport "verifcases/vo"\n\nfunc VerifObserve(emit func(string, string)) {\n'
                   '\tvo.ObserveJSON(emit, func() any { return new(%s) }, %s)\n}\n' % (inst, json.dumps(json.dumps(doc))))
-        pc = {"id": cid, "files": {"t.go": newgen.render_file("cs", cdecls + [s])}, "runs": [{"args": args}] * (2 if ctx.rng.random() < 0.12 else 1), "oracle": {".": oracle},
-              "spec": s, "sexp": json_sexp(cid, s, facts[i], getset, tagcases[i], keys), "cmd": "shoot " + " ".join(args),
+        pc = {"id": cid, "files": {"t.go": newgen.render_file("cs", cdecls + [s])}, "runs": runs, "oracle": {".": oracle},
+              "spec": s, "sexp": json_sexp(cid, s, facts[i], getset, tagcases[i], keys), "cmd": " ; ".join("shoot " + " ".join(r["args"]) for r in runs),
               "key": dump([getset, tagcases[i], typedoc_sexp(s.get("typedoc")), members_sexp_json(s), sorted(facts[i])]), "getset": getset}
         b.add(pc)
         cases.append(pc)
